@@ -88,6 +88,16 @@ var verifDir = func() string {
 }()
 
 func main() {
+	// the go/packages driver resolves `go` through this process's PATH: it must be go1.26.8
+	// (x/tools v0.50.0; accepts the repo's go 1.25.5 directive under GOTOOLCHAIN=local).
+	// Native replays keep the caller's PATH so that the repo's own toolchain builds them.
+	if os.Getenv("VERIF_ORIG_PATH") == "" {
+		os.Setenv("VERIF_ORIG_PATH", os.Getenv("PATH"))
+	}
+	os.Setenv("PATH", "/opt/veriftools/go1.26.8/bin:"+os.Getenv("PATH"))
+	os.Setenv("GOTOOLCHAIN", "local")
+	os.Setenv("GOFLAGS", "-mod=mod")
+	os.Setenv("GOPROXY", "off")
 	tier := flag.String("tier", "", "quick | thorough (default $VERIF_TIER or quick)")
 	repo := flag.String("repo", "/repo", "repository root")
 	only := flag.String("only", "", "run only this harness")
